@@ -370,9 +370,12 @@ def parse_module(text):
     return m
 
 # ---------------------------------------------------------------- C emission
+EXTERN_C = set()     # external plain-C functions of the module (libc, pthread, ...): emitted as cvx_<name>, supplied by the unit
+
 def san(name):
     s = re.sub(r'[^A-Za-z0-9_]', '_', name)
     if re.match(r'\d', s): s = '_' + s
+    if name in EXTERN_C: s = 'cvx_' + s
     return s
 
 class Emitter:
@@ -532,7 +535,7 @@ class Emitter:
             n = s.pending.pop()
             f = s.m.funcs.get(n)
             if f is None: continue
-            if f.blocks is None or (n in s.boundary_set and n not in roots):
+            if f.blocks is None or (n in s.boundary_set and (n not in roots or n == '__clang_call_terminate')):
                 continue
             s.emitted.add(n)
             s.out_funcs.append(FnEmit(s, f).emit())
@@ -605,6 +608,8 @@ class Emitter:
 
 ORD = {'unordered': 0, 'monotonic': 0, 'acquire': 2, 'release': 3, 'acq_rel': 4, 'seq_cst': 5}
 
+CKW = set('''__aligned __packed __asm __asm__ __inline __inline__ __volatile __volatile__ __const __const__ __signed __signed__ __restrict __restrict__ __attribute__ __extension__ __typeof__ __typeof __alignof__ __alignof __real__ __imag__ __thread __func__ __FUNCTION__ asm typeof inline bool _Bool __int128 __float128 __label__ __builtin_va_list __CPROVER_size_t main'''.split())
+
 class FnEmit:
     def __init__(s, em, f):
         s.em = em; s.f = f
@@ -617,7 +622,7 @@ class FnEmit:
             c = san(n)
             if re.fullmatch(r'\d+', n): c = 't' + n
             base = c; i = 1
-            while c in s.names.values() or c in ('this', 'new', 'delete', 'class', 'template', 'register', 'auto', 'int', 'char', 'long', 'short', 'float', 'double', 'if', 'else', 'for', 'while', 'do', 'switch', 'case', 'default', 'break', 'continue', 'return', 'goto', 'struct', 'union', 'enum', 'void', 'const', 'static', 'extern', 'signed', 'unsigned', 'sizeof', 'typedef', 'volatile', 'inline', 'restrict'):
+            while c in s.names.values() or c in CKW or c in ('new', 'delete', 'class', 'template', 'register', 'auto', 'int', 'char', 'long', 'short', 'float', 'double', 'if', 'else', 'for', 'while', 'do', 'switch', 'case', 'default', 'break', 'continue', 'return', 'goto', 'struct', 'union', 'enum', 'void', 'const', 'static', 'extern', 'signed', 'unsigned', 'sizeof', 'typedef', 'volatile', 'inline', 'restrict'):
                 c = '%s_%d' % (base, i); i += 1
             s.names[n] = c
         return s.names[n]
@@ -679,7 +684,7 @@ class FnEmit:
         ps = [em.ctype(t, names[i]) for i, (t, pn, info) in enumerate(f.params)]
         if f.va: ps.append('...')
         head = em.ctype(f.ret, '%s(%s)' % (san(f.name), ', '.join(ps) if ps else 'void'))
-        order = list(blocks.keys())
+        order = s.layout(list(blocks.keys()), blocks)
         s.loops = s.find_loops(order, blocks)          # header -> (last_block, ordinal)
         em.floops[f.name] = len(s.loops)
         s.last_loc = None; s.cur_loc = None
@@ -766,6 +771,52 @@ class FnEmit:
         if op == 'switch': return [t['default']] + [l for _, l in t['cases']]
         if op == 'invoke': return [t['norm'], t['unw']]
         return []
+
+    def natural_loops(s, order, blocks):
+        idx = {b: i for i, b in enumerate(order)}
+        succ = {b: [x for x in s.succs(blocks[b]) if x in idx] for b in order}
+        pred = collections.defaultdict(list)
+        for b in order:
+            for x in succ[b]: pred[x].append(b)
+        dom = {b: set(order) for b in order}; dom[order[0]] = {order[0]}
+        ch = True
+        while ch:
+            ch = False
+            for b in order[1:]:
+                ps = [dom[p] for p in pred[b]]
+                nd = (set.intersection(*ps) if ps else set()) | {b}
+                if nd != dom[b]: dom[b] = nd; ch = True
+        loops = {}
+        for u in order:
+            for h in succ[u]:
+                if h in dom[u]:
+                    body = {h, u}; st = [u]
+                    while st:
+                        x = st.pop()
+                        if x == h: continue
+                        for p in pred[x]:
+                            if p not in body: body.add(p); st.append(p)
+                    loops.setdefault(h, set()).update(body)
+        return loops
+
+    def layout(s, order, blocks):
+        """block order in which every natural loop is contiguous and starts with its header (all control transfers are
+        explicit gotos, so the order of blocks carries no meaning)"""
+        loops = s.natural_loops(order, blocks)
+        if not loops: return order
+        def lay(seq, exclude_header=None):
+            out = []; placed = set()
+            sset = set(seq)
+            for b in seq:
+                if b in placed: continue
+                if b in loops and b != exclude_header and loops[b] <= sset | {b}:
+                    body = [x for x in seq if x in loops[b] and x != b]
+                    grp = [b] + lay(body, None)
+                    out += grp; placed |= set(grp)
+                else:
+                    out.append(b); placed.add(b)
+            return out
+        return lay(order)
 
     def find_loops(s, order, blocks):
         idx = {b: i for i, b in enumerate(order)}
@@ -885,7 +936,7 @@ class FnEmit:
                         args.append(parse_value(p, t))
                     if p.accept(')'): break
                     p.expect(',')
-            ins['rt'] = rt.ret if rt.k == 'fn' else (rt.to.ret if rt.k == 'ptr' and rt.to.k == 'fn' else rt)
+            ins['rt'] = rt.ret if rt.k == 'fn' else rt      # explicit function type (varargs callee) vs. plain return type
             ins['callee'] = callee; ins['args'] = args
             if op == 'invoke':
                 while p.peek()[1] != 'to': p.next()
@@ -1172,6 +1223,9 @@ def translate(ll_path, roots_rx, boundary_rx, out_prefix, names=None, no_names=F
     Writes out_prefix_decl.h, out_prefix_body.c, out_prefix.json. Returns summary dict."""
     text = open(ll_path).read()
     m = parse_module(text)
+    for n, f in m.funcs.items():
+        if f.blocks is None and not re.match(r'^(_Z|__cxa_|__gxx_|__clang_|llvm\.|_Unwind_|__dynamic_cast)', n):
+            EXTERN_C.add(n)
     dm = demangle(list(m.funcs.keys()))
     roots = [n for n, f in m.funcs.items() if f.blocks is not None and any(re.search(r, dm[n]) for r in roots_rx)]
     for r in roots_rx:
